@@ -801,6 +801,46 @@ def rule_R16(toks, fired, pairs):
     return toks
 
 
+def rule_R17(toks, fired):
+    """EXPR.for_each(|PAT| BODY);  ->  for PAT in EXPR { BODY }     (definition of Iterator::for_each; closure
+    patterns are outside the Verus subset, the for loop is then open to R14)"""
+    i = 0
+    while i < len(toks):
+        t = toks[i]
+        if t.kind == "ident" and t.text == "for_each" and toks[prev_code(toks, i - 1)].text == ".":
+            dot = prev_code(toks, i - 1)
+            p = next_code(toks, i + 1)
+            if toks[p].text != "(":
+                i += 1; continue
+            pe = match_close(toks, p)
+            a, b = stmt_bounds(toks, dot)
+            if prev_code(toks, b) != pe and next_code(toks, pe + 1) != b:
+                raise ExtractError("R17: for_each is not a whole statement")
+            # closure:  | PAT | BODY
+            c0 = next_code(toks, p + 1)
+            if toks[c0].text != "|":
+                raise ExtractError("R17: for_each argument is not a closure")
+            c1 = c0 + 1
+            while toks[c1].text != "|":
+                if toks[c1].kind == "punct" and toks[c1].text in ("(", "["):
+                    c1 = match_close(toks, c1)
+                c1 += 1
+            pat = toks[c0 + 1:c1]
+            body = _strip_ws(toks[c1 + 1:pe])
+            bc = [x for x in body if x.kind not in ("ws", "comment")]
+            if not (bc and bc[0].text == "{" and match_close(body, body.index(bc[0])) == len(body) - 1 - [y for y in reversed(body)].index(bc[-1]) and bc[-1].text == "}"):
+                body = [S("{")] + body + synth("; }")
+            expr = toks[a:dot]
+            new = [Tok("ident", "for", -1, False), S(" ", "ws")] + pat + synth(" in ") + expr + [S(" ", "ws")] + body
+            end = b if toks[b].text == ";" else pe
+            toks = toks[:a] + new + toks[end + 1:]
+            fired["R17"] = fired.get("R17", 0) + 1
+            i = a + 1
+            continue
+        i += 1
+    return toks
+
+
 def _contains_continue(toks, lo, hi):
     """is there a `continue` in lo..hi that belongs to this loop (not to a nested loop / closure)?"""
     i = lo
@@ -908,9 +948,9 @@ def rule_R12(toks, fired):
     return out
 
 
-RULES = {"R13": rule_R13, "R5": rule_R5, "R1": rule_R1, "R1f": rule_R1f, "R2": rule_R2, "R3": rule_R3, "R4": rule_R4, "R6": rule_R6, "R7": rule_R7,
+RULES = {"R17": rule_R17, "R13": rule_R13, "R5": rule_R5, "R1": rule_R1, "R1f": rule_R1f, "R2": rule_R2, "R3": rule_R3, "R4": rule_R4, "R6": rule_R6, "R7": rule_R7,
          "R10": rule_R10, "R11": rule_R11, "R12": rule_R12}
-RULE_ORDER = ["R12", "R7", "R6", "R13", "R10", "R4", "R3", "R5", "R11", "R2", "R1", "R1f"]
+RULE_ORDER = ["R12", "R7", "R6", "R13", "R17", "R10", "R4", "R3", "R5", "R11", "R2", "R1", "R1f"]
 
 
 def apply_rules(toks, rules, fired):
